@@ -7,7 +7,8 @@ From V Require Import Common.Base C07.Vlq.
    generated column [gc] to (source index, line, column) with optional name index. *)
 Inductive op :=
 | ONewline
-| OMap (gc si ol oc : Z) (nm : option Z).
+| OMap (gc si ol oc : Z) (nm : option Z)
+| ONull (gc : Z).      (* a mapping without original position (one field): the "null" entries of the linker *)
 
 (* appendMappingWithoutRemapping: new prevState *)
 Definition next_state (prev : state) (gc si ol oc : Z) (nm : option Z) : state * state :=
@@ -19,6 +20,14 @@ Definition next_state (prev : state) (gc si ol oc : Z) (nm : option Z) : state *
                | None => mkState (gline prev) gc si ol oc (oname prev) false
                end in
   (cur, prev').
+
+(* a one-field segment: appendMappingToBuffer with omitSource = true and no name;
+   only the generated column of prevState advances *)
+Definition null_state (prev : state) (gc : Z) : state :=
+  mkState (gline prev) gc (sidx prev) (oline prev) (ocol prev) (oname prev) (has_name prev).
+Definition null_seg (lastByte : Z) (prev : state) (gc : Z) : bytes :=
+  fst (appendMapping lastByte prev
+         (mkState (gline prev) gc (sidx prev) (oline prev) (ocol prev) (oname prev) false) true).
 
 (* emit ops, threading the last byte of the buffer and prevState *)
 Fixpoint emit (ops : list op) (lastByte : Z) (prev : state) : bytes * Z * state :=
@@ -32,6 +41,10 @@ Fixpoint emit (ops : list op) (lastByte : Z) (prev : state) : bytes * Z * state 
     let '(cur, prev') := next_state prev gc si ol oc nm in
     let seg := fst (appendMapping lastByte prev cur false) in
     let '(b, lb, st) := emit r (last seg lastByte) prev' in
+    (seg ++ b, lb, st)
+  | ONull gc :: r =>
+    let seg := null_seg lastByte prev gc in
+    let '(b, lb, st) := emit r (last seg lastByte) (null_state prev gc) in
     (seg ++ b, lb, st)
   end.
 
